@@ -43,6 +43,7 @@ func c10Values() []interface{} {
 		bson.A{D(E("c", int32(1)))}, bson.A{D(E("b", int32(1))), D(E("c", int32(2)))}, bson.A{D(E("b", int32(2))), int32(1)},
 		bson.A{bson.A{int32(1)}}, bson.A{bson.A{int32(1), int32(2)}, bson.A{int32(3)}},
 		D(E("b", bson.A{})), bson.A{D(E("b", bson.A{}))}, bson.A{D(E("b", nil))}, bson.A{int32(0), int32(10)},
+		bson.A{D(E("b", bson.A{int32(0), int32(5)})), D(E("b", bson.A{int32(2)}))}, bson.A{D(E("b", bson.A{int32(0), int32(5)}))},
 	}
 }
 
@@ -112,7 +113,9 @@ func c10Leaves() []c10Leaf {
 			add(p, "$size", o)
 		}
 		for _, o := range []interface{}{D(E("$gt", int32(1))), D(E("$gte", int32(1)), E("$lt", int32(2))), D(E("b", int32(1))), D(E("b", D(E("$gt", int32(1))))),
-			D(E("$eq", "a")), D(E("b", int32(1)), E("c", int32(2))), D(E("$in", bson.A{int32(2), int32(6)})), D(E("b", D(E("$exists", false))))} {
+			D(E("$eq", "a")), D(E("b", int32(1)), E("c", int32(2))), D(E("$in", bson.A{int32(2), int32(6)})), D(E("b", D(E("$exists", false)))),
+			// conditions that only different elements satisfy, and a negative one
+			D(E("$gt", int32(1)), E("$lt", int32(2))), D(E("$gt", int32(1)), E("$lt", int32(5))), D(E("$ne", int32(1)))} {
 			add(p, "$elemMatch", o)
 		}
 		for _, o := range []bson.A{{int32(2), int32(0)}, {int32(2), int32(1)}, {2.5, int32(0)}, {int64(-3), int32(0)}} {
